@@ -89,6 +89,83 @@ def _check_group(cases, ctx: Ctx):
     return out
 
 
+_MLP: dict = {}
+
+
+def clause_mlp(cases, ctx: Ctx):
+    """second pass: the real MLPActorCriticPolicy (key-driven sampling) through the real reset + iteration; judged by
+    trace validation: the chosen actions are read back from the rows, the policy's own evaluate_action / value give the
+    expected log-probabilities and values, everything else is the same reference collector."""
+    import equinox as eqx
+    import jax
+    from jax import numpy as jnp
+    from jax import random as jr
+
+    from lerax.callback import CallbackList
+    from lerax.policy import MLPActorCriticPolicy
+
+    out = []
+    for ci, c in enumerate(cases):
+        E, Tn = c["num_envs"], c["num_steps"]
+        has_tl = bool(c.get("tl"))
+        env = collect.build_env(c)
+        pol = MLPActorCriticPolicy(env, feature_size=4, feature_width=8, value_width=8, action_width=8, key=jr.key(c["policy_key"]), log_std_init=c.get("log_std", 0.0))
+        sk = (c["algo"], E, Tn, c["S"], c["A"], c["act_kind"], c["obs_kind"], c.get("M") is not None, has_tl, c["gamma"], c["lam"])
+        if sk not in _MLP:
+            algo = collect.make_algo(c["algo"], E, Tn, c["gamma"], c["lam"])
+            cb = CallbackList(callbacks=[])
+
+            @eqx.filter_jit
+            def run(env, pol, key):
+                k1, k2 = jr.split(key)
+                st0 = algo.reset(env, pol, key=k1, callback=cb)
+                st1 = algo.iteration(st0, key=k2, callback=cb)
+                return st0.step_state, st1.step_state, st1.policy
+
+            @eqx.filter_jit
+            def reeval(pol, buf, all_obs):
+                flat = buf.flatten_axes()
+                f = lambda o, a, m: pol.evaluate_action(None, o, a, action_mask=m)[2]
+                lp = jax.vmap(f)(flat.observations, flat.actions, flat.action_masks)
+                lp0 = jax.vmap(lambda o, a: pol.evaluate_action(None, o, a)[2])(flat.observations, flat.actions)
+                V = jax.vmap(lambda o: pol.value(None, o)[1])(all_obs)
+                return lp, lp0, V
+
+            _MLP[sk] = (run, reeval)
+        run, reeval = _MLP[sk]
+        st0, st1, buf = run(env, pol, jr.key(c["key"]))
+        S = c["S"]
+        all_obs = jnp.eye(S) if c["obs_kind"] == "onehot" else jnp.arange(S)
+        lp, lp0, V = reeval(pol, buf, all_obs)
+        st0, st1, buf, lp, lp0, V = jax.tree.map(np.asarray, (st0, st1, buf, lp, lp0, V))
+        tb = refs.Tables([c], repeat=E)
+        tb.V = np.repeat(np.asarray(V, dtype=np.float64)[None], E, axis=0)
+
+        def streams(x):
+            x = np.asarray(x)
+            return x.reshape((1,) + x.shape) if E == 1 else x
+
+        s0, t0, tl0 = collect.unwrap_env_state(st0.env_state, has_tl)
+        fs, ft, ftl = collect.unwrap_env_state(st1.env_state, has_tl)
+        one = lambda x: np.asarray(x).reshape(E)
+        masks = None if buf.action_masks is None else streams(buf.action_masks)
+        lam = 1.0 if c["algo"] == "REINFORCE" else c["lam"]
+        fails, stats = refs.check_onpolicy(
+            tb, None, streams(buf.observations), streams(buf.actions), streams(buf.rewards), streams(buf.dones), streams(buf.log_probs),
+            streams(buf.values), None, masks, streams(buf.advantages), streams(buf.returns), one(s0), one(fs), one(ft),
+            None if ftl is None else one(ftl), None, c["gamma"], lam, init_t=one(t0), init_tl=None if tl0 is None else one(tl0),
+            trace_actions=True, lp_eval=lp.reshape(E, Tn), lp_eval_nomask=lp0.reshape(E, Tn),
+        )
+        for k, v in stats.items():
+            ctx.guard("mlp-" + k, v)
+        ctx.outcome("mlp-actions", tuple(np.asarray(buf.actions).ravel().round(3).tolist()))
+        ctx.transitions += E * Tn
+        ctx.traces += E
+        for stream, step, sig, msg in fails:
+            out.append((ci, sig.replace("C04/", "C04/mlp/"), f"[{c['algo']} MLP policy key {c['policy_key']}, {c['act_kind']} actions, env {stream} of {E}] " + msg))
+    return out
+
+
 def clause_gymcollect(cases, ctx: Ctx):
     """third pass: the same finite MDPs presented through GymToLeraxEnv(gymnasium twin), whose call log is part of
     the trace (exactly one gym reset per episode start)"""
@@ -97,7 +174,7 @@ def clause_gymcollect(cases, ctx: Ctx):
     return g(cases, ctx, pid="C04")
 
 
-CLAUSES = {"collect": clause_collect, "gymcollect": clause_gymcollect}
+CLAUSES = {"collect": clause_collect, "gymcollect": clause_gymcollect, "mlp": clause_mlp}
 
 
 def family(S, A, *, shaped, limits, act_kind="discrete", obs_kind="discrete", masks=False):
@@ -204,6 +281,19 @@ def explore(ctx: Ctx):
             for algo in ("PPO", "A2C", "REINFORCE") if thorough else ("PPO",):
                 gc.append(dict(table=t, algo=algo, script=sc, num_steps=6, key=keys[0]))
     ctx.run("gymcollect", gc)
+    # second pass: real MLP actor-critic policies (all action-space kinds), trace validation
+    mlp = []
+    for kind, lims, masks in (("discrete", [(0, 2), (0, 3)], True), ("box", [(0, 2), (2, 0)], False), ("boxvec", [(0, 3)], False),
+                              ("multidiscrete", [(0, 2)], False), ("multibinary", [(0, 2)], False)):
+        fam = list(family(2, 2, shaped=True, limits=lims, act_kind=kind, obs_kind="onehot", masks=masks))
+        fam = fam[:: max(1, len(fam) // (24 if thorough else 8))]
+        for tab in fam:
+            for pk in range(3 if thorough else 2):
+                for E in (1, 2):
+                    mlp.append(dict(tab, algo="PPO" if E == 1 else "A2C", policy_key=pk, num_envs=E, num_steps=6, key=keys[pk % len(keys)],
+                                    gamma=0.5, lam=0.25, log_std=1.0))
+    ctx.run("mlp", mlp)
+    ctx.notes["mlp_cases"] = len(mlp)
     # distinct non-trivial = distinct cases (all cases are distinct by construction) minus trivial ones
     trivial = sum(1 for c in cases if not any(c["term"]) and not c.get("tl") and not c.get("limit") and c["act_kind"] not in refs.BOX_KINDS and c.get("M") is None)
     for i in range(len(cases) - trivial):
@@ -211,4 +301,4 @@ def explore(ctx: Ctx):
     ctx.notes["trivial_cases_(no_episode_end_no_clip_no_mask)"] = trivial
     ctx.nontrivial = set(range(len(cases) - trivial))
     ctx.states = ctx.transitions + ctx.traces  # every step reaches a reference state (s,t,c); + initial states
-    ctx.require("trunc_only", "term_only", "both", "clipped", "after_reset", "masked_rows", "gymcollect-episode-ends")
+    ctx.require("trunc_only", "term_only", "both", "clipped", "after_reset", "masked_rows", "gymcollect-episode-ends", "mlp-clipped", "mlp-trunc_only", "mlp-after_reset", "mlp-masked_rows")
